@@ -70,7 +70,7 @@ class Ctx:
 
     def floor(self, rule, name, count, minimum):
         self.ob(rule, "floor:" + name, count >= minimum,
-                "at least %d instances of %s expected (counted by hand on the pinned tree); found %d" % (minimum, name, count),
+                "at least %d instances of %s expected (a fraction of what was counted by hand on the pinned tree: a recogniser that matches nothing must not pass vacuously); found %d" % (minimum, name, count),
                 kind="FLOOR")
 
     def note(self, s):
